@@ -521,7 +521,8 @@ func ConstantFunc(query *Query, current Map, functionOptions *FunctionOptions, a
 	if query.options.constants == nil {
 		return nil, fmt.Errorf("constants not initialized")
 	}
-	key := fmt.Sprintf("%v", args[0])
+	// the name of a constant is the decimal text of the argument
+	key := TextOf(args[0])
 	value, ok := query.options.constants[key]
 	if !ok {
 		return nil, fmt.Errorf("no constant by the name `%s` was found", key)
